@@ -4,7 +4,14 @@ yields `after`; edits ordered, non-overlapping, within the document.
 Tie: the real ComputeEdits (overlay test in package lsp) and the Gallina model
 (Model/Diff.v) are run on the same pairs and compared edit list for edit list; the real edits are
 applied (a) by an independent Go implementation of the LSP rules inside the overlay test and
-(b) by the Coq specification Model/LspApply.lsp_apply."""
+(b) by the Coq specification Model/LspApply.lsp_apply.
+
+Server level (the glue around ComputeEdits): a real LanguageServer per formatter / config profile is
+driven over JSON-RPC (didOpen / didChange, textDocument/formatting, workspace/executeCommand ->
+workspace/applyEdit, workspace/didCreateFiles -> workspace/applyEdit); the returned edits are applied
+to the text the CLIENT holds and compared with what the server intends (formatter / fix / template
+oracle, and the server's own copy afterwards); Model/FormatFlow.v (which (before, after) each flow
+hands to ComputeEdits) is compared with the answers, class for class and edit list for edit list."""
 import glob, json, os, re, subprocess, time
 import vlib
 from common import proof_gate, proof_coverage
@@ -208,16 +215,33 @@ def gen_cases(ctx):
 
 # ------------------------------------------------------------------ running the implementation
 
-def run_go(ctx, cases, tag='main'):
+OVERLAY = {
+    'internal/lsp/zz_verif_c16_test.go': os.path.join(vlib.VERIF, 'harness', 'overlay', 'c16_test.go'),
+    'internal/lsp/zz_verif_c16srv_test.go': os.path.join(vlib.VERIF, 'harness', 'overlay', 'c16_server_test.go'),
+}
+
+
+def run_go(ctx, cases, tag='main', srv_cases=None):
+    """runs the overlay tests: the pairs through ComputeEdits (TestVerifC16) and, when given, the server-level
+    cases through real language servers (TestVerifC16Server, in parallel inside the same test binary).
+    Returns the pair results by id; with srv_cases: (pair results, server results by id)"""
     inp = os.path.join(ctx.tmp, 'c16_in_%s.jsonl' % tag)
     outp = os.path.join(ctx.tmp, 'c16_out_%s.jsonl' % tag)
     with open(inp, 'w') as f:
         for c in cases:
             f.write(json.dumps({'id': c['id'], 'mode': c['mode'], 'before': c['before'], 'after': c['after']}) + '\n')
-    rc, log = vlib.go_test_overlay(
-        ctx, './internal/lsp',
-        {'internal/lsp/zz_verif_c16_test.go': os.path.join(vlib.VERIF, 'harness', 'overlay', 'c16_test.go')},
-        'TestVerifC16', env_extra={'VERIF_C16_IN': inp, 'VERIF_C16_OUT': outp}, timeout=1500)
+    env = {'VERIF_C16_IN': inp, 'VERIF_C16_OUT': outp}
+    pat = '^TestVerifC16$'
+    if srv_cases is not None:
+        sinp = os.path.join(ctx.tmp, 'c16_srv_in_%s.jsonl' % tag)
+        soutp = os.path.join(ctx.tmp, 'c16_srv_out_%s.jsonl' % tag)
+        with open(sinp, 'w') as f:
+            for c in srv_cases:
+                f.write(json.dumps(c) + '\n')
+        env.update({'VERIF_C16_SRV_IN': sinp, 'VERIF_C16_SRV_OUT': soutp,
+                    'VERIF_C16_SRV_WS': os.path.join(ctx.tmp, 'c16_ws_%s' % tag)})
+        pat = '^TestVerifC16(Server)?$'
+    rc, log = vlib.go_test_overlay(ctx, './internal/lsp', OVERLAY, pat, env_extra=env, timeout=1500)
     if rc != 0:
         if 'build failed' in log or 'cannot' in log and '.go:' in log:
             raise vlib.HarnessBuildError(log)
@@ -226,7 +250,19 @@ def run_go(ctx, cases, tag='main'):
     for l in open(outp):
         o = json.loads(l)
         res[o['id']] = o
-    return res
+    if srv_cases is None:
+        return res
+    sres = {}
+    for l in open(soutp):
+        o = json.loads(l)
+        sres[o['id']] = o
+    for c in srv_cases:
+        o = sres.get(c['id'])
+        if o is None:
+            raise RuntimeError('no output for server case %d' % c['id'])
+        if o.get('fatal'):
+            raise RuntimeError('c16 server harness stopped at case %d (%s): %s' % (c['id'], json.dumps(c), o['fatal']))
+    return res, sres
 
 
 def go_bad(o):
@@ -401,20 +437,384 @@ def minimise(ctx, before, after, is_bad, budget_s=60):
     return cur
 
 
+# ------------------------------------------------------------------ server level
+
+def shx(t):
+    return t.encode('utf-8').hex()
+
+
+def unhx(h):
+    return bytes.fromhex(h or '')
+
+
+BLANK_TOKENS = [' ', '\t', '\n', '\r\n', '\r']
+BLANKS = ['\n', '\n\n', '\r\n\r\n', '  \t', '  \n\t\n', '\n \n', '\n\n\n', ' ', '﻿', ' \r\n']
+HEADERS = ['package main', 'package  main', 'package pol.sub', 'package p', 'package main\n\nimport rego.v1']
+RULES = ['x := 1', 'x   :=   1', 'x = 1', 'allow if {\n\tinput.x == 1\n}', 'allow if {\n  input.x == 1\n}',
+         'allow if { input.x == 1 }', '#comment', '# comment', 'r := regex.match("a+", input.s)', 'default allow := false',
+         'deny contains msg if {\n\tmsg := "no"\n}', 'y := "日本語 😀"', 'z = "a=b"  #c', 'allow  if  input.y', '# one\rtwo']
+UNPARSABLE = ['package', 'package p\n\nallow := {\n', 'x := 1\n', '# only a comment\n', 'package p\n\nx := := 1\n', '}{',
+              'package p\n\nimport\n', 'package p\r\n\r\nallow {', '﻿package p\n']
+SRV_DIRS = ['', 'main', 'pol/sub', 'my-pkg/sub', 'a.b', 'x']
+FIX_COMMANDS = [('regal.fix.opa-fmt', ''), ('regal.fix.use-rego-v1', ''), ('regal.fix.use-assignment-operator', '='),
+                ('regal.fix.no-whitespace-comment', '#'), ('regal.fix.non-raw-regex-pattern', '"')]
+
+
+def random_blank(rng):
+    return ''.join(rng.choice(BLANK_TOKENS + ['\n']) for _ in range(1 + rng.below(6)))
+
+
+def random_policy(rng):
+    parts = [rng.choice(HEADERS)]
+    for _ in range(rng.below(5)):
+        parts.append(rng.choice(RULES))
+    sep = rng.choice(['\n\n', '\n\n', '\n', '\n\n\n'])
+    t = sep.join(parts)
+    v = rng.below(10)
+    if v < 6:
+        t += '\n'
+    elif v == 6:
+        t += '\n\n\n'
+    elif v == 7:
+        t += '  \n'
+    if rng.below(8) == 0:
+        t = rng.choice(['\n', '\n\n', ' \n']) + t
+    if rng.below(6) == 0:
+        t = t.replace('\n', ' \n', 1)
+    style = rng.below(6)
+    if style == 0:
+        t = t.replace('\n', '\r\n')
+    elif style == 1:
+        t = ''.join(('\r\n' if ch == '\n' and rng.below(2) else ch) for ch in t)
+    return t
+
+
+def random_doc_srv(rng, files):
+    v = rng.below(20)
+    if v < 11:
+        return random_policy(rng)
+    if v < 13:
+        return rng.choice(UNPARSABLE)
+    if v < 15:
+        return rng.choice(BLANKS) if rng.below(2) else random_blank(rng)
+    if v == 15:
+        return ''
+    if v < 18 and files:
+        try:
+            t = open(rng.choice(files), 'rb').read().decode('utf-8')
+        except UnicodeDecodeError:
+            return random_policy(rng)
+        if rng.below(2):
+            t = mutate(rng, t.encode(), ['lf']).decode('utf-8', 'replace')
+        return t
+    return random_policy(rng) + rng.choice(RULES)
+
+
+def gen_srv_cases(ctx):
+    rng = ctx.rng
+    quick = ctx.quick()
+    cases = []
+    files = [f for f in policy_files() if os.path.getsize(f) < 2500]
+
+    def add(profile, d, text, op='format', test=False, disk=None, open_first=None, never_open=False, command='', char='', nth=0):
+        i = len(cases)
+        c = {'id': i, 'profile': profile, 'dir': d, 'file': 'p%d%s.rego' % (i, '_test' if test else ''),
+             'disk': 'missing' if disk is None else 'content', 'disk_hex': '' if disk is None else shx(disk),
+             'open': None, 'change': None, 'op': op, 'command': command, 'char': char, 'nth': nth}
+        if op != 'create' and not never_open:
+            if open_first is not None:
+                c['open'], c['change'] = shx(open_first), shx(text)
+            else:
+                c['open'] = shx(text)
+        cases.append(c)
+
+    def disk_for(text):
+        v = rng.below(12)
+        if v < 6:
+            return None
+        if v < 8:
+            return ''
+        if v == 8:
+            return rng.choice(BLANKS)
+        if v == 9:
+            return text
+        return 'package on_disk\n'
+
+    # the boundary "empty" / "blank": every document of <= 2 white space tokens, in the workspace root and below it
+    blanks2 = [''] + BLANK_TOKENS + [a + b for a in BLANK_TOKENS for b in BLANK_TOKENS]
+    blanks2 = sorted(set(blanks2), key=lambda t: (len(t), t))
+    for t in blanks2:
+        for d in ('', 'main'):
+            add('default', d, t)
+    # every directory kind x {empty, blank, formatted, unformatted, unparsable} x disk state, opa-fmt
+    for d in SRV_DIRS:
+        for t in ('', '\n\n', 'package main\n\nx := 1\n', 'package  main\n\n\nx   :=   1\n', 'package main\r\n\r\nx = 1', 'package'):
+            add('default', d, t, disk=rng.choice([None, None, '', '\n', 'package q\n']), test=(rng.below(4) == 0))
+    n = 70 if quick else 900
+    for _ in range(n):
+        t = random_doc_srv(rng, files)
+        add('default', rng.choice(SRV_DIRS), t, disk=disk_for(t), test=(rng.below(5) == 0),
+            open_first=(random_doc_srv(rng, files) if rng.below(4) == 0 else None), never_open=(rng.below(25) == 0))
+    for _ in range(24 if quick else 300):
+        t = random_doc_srv(rng, files)
+        add('regov1', rng.choice(SRV_DIRS), t, disk=disk_for(t), test=(rng.below(5) == 0))
+    for _ in range(40 if quick else 400):
+        t = random_doc_srv(rng, files)
+        add('config', rng.choice(SRV_DIRS + ['ignored/pol', 'ignored/pol', 'v0/pol', 'v0/pol']), t, disk=disk_for(t),
+            test=(rng.below(5) == 0), open_first=(random_doc_srv(rng, files) if rng.below(5) == 0 else None))
+    for t in ['', '\n', 'package  main\n\nx = 1\n', 'package'] + [random_doc_srv(rng, files) for _ in range(2 if quick else 30)]:
+        add('unknown', rng.choice(['main', 'pol/sub', '']), t)
+    for t in ['', ' \n', 'package main\n\nx = 1\n', 'package main\n\nx := 1\n', 'package'] + \
+             [random_doc_srv(rng, files) for _ in range(3 if quick else 60)]:
+        add('regalfix', rng.choice(['main', 'pol/sub']), t)
+    # fix commands (command worker -> workspace/applyEdit)
+    bait = {'=': ['x = 1', 'allow = true', 'y = "a=b"'], '#': ['#comment', 'x := 1  #c', '#é x'],
+            '"': ['r := regex.match("a+", input.s)', 'r := regex.match("\\\\d", "1")', 's := "日本"']}
+    for _ in range(40 if quick else 500):
+        t = random_doc_srv(rng, files)
+        cmd, ch = rng.choice(FIX_COMMANDS)
+        if ch and rng.below(4) != 0:
+            # a document in which the diagnostic has something to point at (any line terminator style)
+            t = random_policy(rng)
+            nl = '\r\n' if '\r\n' in t else '\n'
+            t = t + ('' if t.endswith('\n') else nl) + nl + rng.choice(bait[ch]) + (nl if rng.below(3) else '')
+        add('default', rng.choice(['main', 'pol/sub', '']), t, op='cmd', command=cmd, char=ch, nth=rng.below(3),
+            open_first=(random_doc_srv(rng, files) if rng.below(5) == 0 else None), never_open=(rng.below(20) == 0))
+    # new files (template worker -> workspace/applyEdit)
+    for _ in range(24 if quick else 200):
+        d = rng.choice(SRV_DIRS + ['main', 'pol/sub'])
+        disk = rng.choice(['', '', '', '\n', ' ', 'package q\n', random_blank(rng)])
+        add(rng.choice(['default', 'default', 'config']), d, '', op='create', disk=disk, test=(rng.below(4) == 0))
+    return cases
+
+
+def srv_intended(c, o):
+    """the text the server is to intend, from the oracles alone (same definition as Check.C16Check.intended_text)"""
+    client = unhx(o['client'])
+    has = o['has_client']
+    template = unhx(o['template']) if o['template_ok'] else None
+    disk = None if c['disk'] == 'missing' else unhx(c['disk_hex'])
+
+    def guard(in_cache):
+        if not in_cache or (disk is not None and len(disk) > 0):
+            return None
+        return template
+    if c['op'] == 'format':
+        if client == b'':
+            if o['in_root']:
+                return client
+            t = guard((not o['ignored']) and has)
+            return client if t is None else t
+        if o['kind'] != 'unknown' and o['ora_class'] == 'new':
+            return unhx(o['ora_out'])
+        return client
+    if c['op'] == 'cmd':
+        return unhx(o['ora_out']) if has and o['ora_class'] == 'new' else client
+    if o['in_root'] or not has or client != b'':
+        return client
+    t = guard(True)
+    return client if t is None else t
+
+
+def srv_bad(c, o):
+    """the property on the server's own answers; returns a reason or None"""
+    client = unhx(o['client'])
+    before, after = unhx(o['before']), unhx(o['after'])
+    if o['has_client'] and c['op'] != 'create' and (not o['before_has'] or before != client):
+        return 'the server does not hold the text the client sent (%r)' % before.decode('utf-8', 'replace')[:80]
+    if o['class'] != 'edits':
+        if o['after_has'] != o['before_has'] or (after != before and c['op'] != 'create'):
+            return 'no edits were sent but the server changed its copy of the document'
+        if c['op'] == 'create' and o['after_has'] and after != client:
+            return 'no edits were sent for the new file but the server holds another text than the editor'
+        return None
+    if not o['appl_ok']:
+        return 'the edits cannot be applied to the client\'s text (%s)' % o.get('applerr')
+    applied = unhx(o['applied'])
+    if o['after_has'] and after != client and applied != after:
+        return 'after applying the edits the editor holds %r, the server holds %r' % (
+            applied.decode('utf-8', 'replace')[:120], after.decode('utf-8', 'replace')[:120])
+    want = srv_intended(c, o)
+    if applied != want:
+        return 'after applying the edits the editor holds %r, the intended text is %r' % (
+            applied.decode('utf-8', 'replace')[:120], want.decode('utf-8', 'replace')[:120])
+    if not o['sorted']:
+        return 'edits not ordered by start'
+    if not o['disjoint']:
+        return 'edits overlap'
+    if not o['indoc']:
+        return 'edit position outside the client\'s document'
+    if not o['char0']:
+        return 'unexpected non-zero character'
+    return None
+
+
+def flow_text(srv_cases, sres):
+    it = Interner()
+
+    def opt(b):
+        return 'None' if b is None else '(Some (%s))' % it.text(b)
+
+    def cb(x):
+        return 'true' if x else 'false'
+    rows = []
+    for c in srv_cases:
+        o = sres[c['id']]
+        disk = None if c['disk'] == 'missing' else unhx(c['disk_hex'])
+        template = unhx(o['template']) if o['template_ok'] else None
+        ora = {'new': '(ONew (%s))' % it.text(unhx(o['ora_out'])), 'none': 'ONone', 'err': 'OErr'}[o['ora_class']]
+        if c['op'] == 'format':
+            kind = {'opa-fmt': 'KOpaFmt', 'regal-fix': 'KRegalFix', 'unknown': 'KUnknown'}[o['kind']]
+            q = '(QFormat %s %s %s %s %s %s)' % (kind, cb(o['in_root']), cb(o['ignored']), opt(disk), opt(template), ora)
+        elif c['op'] == 'cmd':
+            q = '(QFix %s)' % ora
+        else:
+            q = '(QTemplate %s %s %s)' % (cb(o['in_root']), opt(disk), opt(template))
+        cache = opt(unhx(o['client']) if o['has_client'] else None)
+        if o['class'] == 'edits':
+            obs = '(OEdits [%s])' % ';'.join('(%s,%s,%s,%s,%s)' % (zlit(e[0]), zlit(e[1]), zlit(e[2]), zlit(e[3]), it.text(bytes.fromhex(e[4])))
+                                             for e in o['edits'])
+        else:
+            obs = {'null': 'ONullR', 'error': 'OErrorR', 'silent': 'OSilent'}[o['class']]
+        after = opt(unhx(o['after']) if o['after_has'] else None)
+        rows.append('FlowCase %s %s %s %s' % (q, cache, obs, after))
+    v = ['From Regal Require Import Check.C16Check.', 'Open Scope Z_scope.'] + it.defs
+    v.append('Definition fcases : list flow_case := [\n%s].' % ';\n'.join(rows))
+    v.append('Definition F1 := Eval vm_compute in failing16 flow_agrees 0 fcases.')
+    v.append('Definition F2 := Eval vm_compute in failing16 flow_meets_spec 0 fcases.')
+    v.append('Definition F3 := Eval vm_compute in failing16 flow_model_meets_spec 0 fcases.')
+    v.append('Print F1. Print F2. Print F3.')
+    return vlib.CASE_HEADER + '\n'.join(v) + '\n'
+
+
+def coq_flow_start(ctx, srv_cases, sres, tag='main'):
+    if not srv_cases:
+        return None
+    path = os.path.join(ctx.tmp, 'Cases_C16_flow_%s.v' % tag)
+    with open(path, 'w') as f:
+        f.write(flow_text(srv_cases, sres))
+    cmd = 'ulimit -s unlimited 2>/dev/null; exec timeout 1700 coqc -Q %s Regal -Q %s Cases %s' % (
+        os.path.join(vlib.COQ, 'theories'), ctx.tmp, path)
+    return subprocess.Popen(['sh', '-c', cmd], cwd=ctx.tmp, stdout=subprocess.PIPE, stderr=subprocess.STDOUT, text=True, errors='replace')
+
+
+def coq_flow_finish(proc):
+    """(flow_agrees failures, flow_meets_spec failures, flow_model_meets_spec failures) as indices"""
+    if proc is None:
+        return [], [], []
+    out, _ = proc.communicate(timeout=1800)
+    if proc.returncode != 0:
+        raise RuntimeError('flow case evaluation failed:\n' + out[-3000:])
+    r = [vlib.parse_nat_list(out, m) for m in ('F1', 'F2', 'F3')]
+    if any(x is None for x in r):
+        raise RuntimeError('cannot parse flow case evaluation output:\n' + out[-2000:])
+    return r
+
+
+def srv_shrink_candidates(c):
+    """smaller variants of a server-level case (same operation, same profile)"""
+    out = []
+    key = 'change' if c.get('change') is not None else 'open'
+    if c['op'] != 'create' and c.get(key) is not None:
+        lines = split_keep(bytes.fromhex(c[key]))
+        for i in range(len(lines)):
+            out.append(dict(c, **{key: b''.join(lines[:i] + lines[i + 1:]).hex()}))
+        if c.get('change') is not None:
+            out.append(dict(c, open=c['change'], change=None))
+    if c['disk'] != 'missing' and c['op'] != 'create':
+        out.append(dict(c, disk='missing', disk_hex=''))
+    if c['file'].endswith('_test.rego'):
+        out.append(dict(c, file=c['file'].replace('_test.rego', '.rego')))
+    if c['op'] == 'create' and len(c['disk_hex']) > 2:
+        b = bytes.fromhex(c['disk_hex'])
+        out += [dict(c, disk_hex=(b[:i] + b[i + 1:]).hex()) for i in range(len(b))]
+    return out
+
+
+def srv_size(c):
+    return len(c.get('open') or '') + len(c.get('change') or '') + len(c.get('disk_hex') or '') + len(c['file'])
+
+
+def srv_minimise(ctx, c, budget_s=90):
+    t_end = time.time() + budget_s
+    cur = c
+    for rnd in range(8):
+        if time.time() >= t_end:
+            break
+        cands = [dict(x, id=i) for i, x in enumerate(srv_shrink_candidates(cur))][:60]
+        if not cands:
+            break
+        _, rr = run_go(ctx, [], tag='smin%d' % rnd, srv_cases=cands)
+        better = [x for x in cands if srv_bad(x, rr[x['id']])]
+        if not better:
+            break
+        cur = min(better, key=lambda x: (srv_size(x), json.dumps(x, sort_keys=True)))
+    return cur
+
+
+def srv_readable(c, o):
+    def txt(h):
+        return None if h is None else bytes.fromhex(h).decode('utf-8', 'replace')
+    return {'operation': c['op'] + (' ' + c['command'] if c['command'] else ''), 'profile': c['profile'],
+            'document': '<workspace>/%s' % os.path.join(c['dir'], c['file']),
+            'file_on_disk': None if c['disk'] == 'missing' else txt(c['disk_hex']),
+            'didOpen_text': txt(c.get('open')), 'didChange_text': txt(c.get('change')),
+            'client_text': txt(o['client']), 'answer': o['class'], 'error': o.get('err'), 'edits': o['edits'],
+            'client_text_after_applying': txt(o['applied']), 'server_copy_after': txt(o['after']) if o['after_has'] else None,
+            'intended_text': srv_intended(c, o).decode('utf-8', 'replace'),
+            'oracle': {'formatter_or_fix': o['ora_class'], 'output': txt(o['ora_out']), 'template': txt(o['template']) if o['template_ok'] else None,
+                       'template_error': o.get('template_err'), 'in_workspace_root': o['in_root'], 'ignored_file': o['ignored']}}
+
+
+def srv_evidence(srv_cases, sres, srv_pred_bad, f1, f2, f3):
+    by_op, by_class, by_profile = {}, {}, {}
+    with_edits = set()
+    blank = templated = 0
+    for c in srv_cases:
+        o = sres[c['id']]
+        k = c['op'] + (':' + c['command'].replace('regal.fix.', '') if c['command'] else '')
+        by_op[k] = by_op.get(k, 0) + 1
+        kk = '%s/%s' % (c['op'], o['class'] if o['class'] != 'edits' else ('edits' if o['edits'] else 'edits-empty'))
+        by_class[kk] = by_class.get(kk, 0) + 1
+        by_profile[c['profile']] = by_profile.get(c['profile'], 0) + 1
+        if o['class'] == 'edits' and o['edits']:
+            with_edits.add((c['op'], c['command'], c['profile'], o['client'], json.dumps(o['edits'])))
+        cl = unhx(o['client'])
+        if cl and not cl.strip():
+            blank += 1
+        if o['class'] == 'edits' and o['edits'] and o['after_has'] and o['after'] != o['client']:
+            templated += 1
+    sample = None
+    for c in srv_cases:
+        o = sres[c['id']]
+        if o['class'] == 'edits' and o['edits']:
+            sample = {'op': c['op'], 'profile': c['profile'], 'client_text': unhx(o['client']).decode('utf-8', 'replace')[:120],
+                      'edits': o['edits'][:3]}
+            break
+    return {'cases': len(srv_cases), 'distinct_answers_with_edits': len(with_edits), 'by_operation': by_op,
+            'by_operation_and_answer': by_class, 'by_profile': by_profile, 'blank_non_empty_documents': blank,
+            'answers_where_the_server_stored_a_new_text': templated, 'predicate_failures': len(srv_pred_bad),
+            'mismatch_flow_model_vs_server': len(f1), 'spec_rejects_server_edits': len(f2), 'spec_rejects_flow_model': len(f3),
+            'sample': sample}
+
+
 # ------------------------------------------------------------------ main
 
 def run(ctx):
     if ctx.replay:
         rp = json.load(open(ctx.replay))
         c = rp.get('case')
-        cases = []
-        if c:
+        cases, srv_cases = [], []
+        if c and 'srv_case' in c:
+            srv_cases = [dict(c['srv_case'], id=0)]
+        elif c:
             cases = [{'id': 0, 'kind': 'replay', 'mode': c.get('mode', 'pair'), 'before': c['before'], 'after': c['after']}]
     else:
         cases = gen_cases(ctx)
+        srv_cases = gen_srv_cases(ctx)
 
     t_go = time.time()
-    res = run_go(ctx, cases)
+    res, sres = run_go(ctx, cases, srv_cases=srv_cases)
     t_go = time.time() - t_go
 
     # resolved pairs (mode fmt gets its `after` from the implementation's formatter)
@@ -440,8 +840,14 @@ def run(ctx):
     coq_cases = [c for c in live if not res[c['id']].get('panic') and c['kind'] != 'large']
     items = [(bytes.fromhex(c['before']), bytes.fromhex(c['after']), res[c['id']]['edits']) for c in coq_cases]
     t_coq = time.time()
+    flow_proc = coq_flow_start(ctx, srv_cases, sres)
     r1, r2, r3, rounds = coq_shards(ctx, items)
+    f1, f2, f3 = coq_flow_finish(flow_proc)
     t_coq = time.time() - t_coq
+
+    # ---- server level: predicate on the answers of the real server
+    srv_pred_bad = [(c, srv_bad(c, sres[c['id']])) for c in srv_cases]
+    srv_pred_bad = [(c, why) for c, why in srv_pred_bad if why]
 
     def batch_pred(tag):
         n = [0]
@@ -476,6 +882,36 @@ def run(ctx):
         report_input(c, why, 'lsp-apply')
         if len(ctx.violations) >= 3:
             break
+
+    # 1b. server level: the edits the server sent do not turn the client's text into the intended text
+    def report_srv(c, why, kind):
+        small = srv_minimise(ctx, c) if not ctx.replay else c
+        _, rr = run_go(ctx, [], tag='srep', srv_cases=[dict(small, id=0)])
+        o = rr[0]
+        why2 = srv_bad(small, o) or why
+        sc = {k: v for k, v in small.items() if k != 'id'}
+        key = json.dumps([sc['op'], sc['command'], sc['profile'], sc['dir'] != '', sc.get('change') or sc.get('open') or sc['disk_hex']])
+        if key in reported:
+            return
+        reported.add(key)
+        vlib.violation(ctx, dict(srv_readable(small, o), kind=kind, what=why2, case={'srv_case': sc},
+                                 replay_cmd='tools/check C16 --replay <this file>'),
+                       no_input=False, signature={'kind': kind, 'key': key})
+
+    for c, why in sorted(srv_pred_bad, key=lambda cw: srv_size(cw[0]))[:2]:
+        if len(ctx.violations) >= 3:
+            break
+        report_srv(c, why, 'server-edits')
+
+    # 1c. the Coq specification (lsp_apply on the real edits vs the oracles) rejects an answer the Go side accepted
+    srv_bad_ids = {c['id'] for c, _ in srv_pred_bad}
+    for i in f2:
+        c = srv_cases[i]
+        if c['id'] in srv_bad_ids or len(ctx.violations) >= 3:
+            continue
+        report_srv(c, 'Check.C16Check.flow_meets_spec: lsp_apply of the edits the server sent, on the client\'s text, does not give the '
+                      'intended text (or the server\'s copy afterwards), although the Go-side applier accepted them', 'server-edits-spec')
+        break
 
     # 2. the Coq specification rejects the real edits (should coincide with 1; if Go's applier missed it, still an input)
     go_bad_ids = {c['id'] for c, _ in pred_bad}
@@ -522,7 +958,38 @@ def run(ctx):
                 'before_text': items[i][0].decode('utf-8', 'replace'), 'after_text': items[i][1].decode('utf-8', 'replace'),
                 'go_edits': items[i][2], 'n_mismatches': len(r1), 'n_model_spec_failures': len(r3)}, no_input=True)
 
-    proof_gate(ctx, 'compute_edits_sound / compute_edits_total')
+    # 3b. the flow model no longer describes server.go (answer class / edit list / stored text differ) and no input
+    # violating the property was found: look at the neighbours (line deletions, other directory) first
+    if (f1 or f3) and not ctx.violations:
+        idxs = sorted(f1 or f3, key=lambda i: srv_size(srv_cases[i]))
+        c = srv_cases[idxs[0]]
+        neigh = []
+        for i in idxs[:8]:
+            neigh += srv_shrink_candidates(srv_cases[i])
+            neigh += [dict(srv_cases[i], dir=d) for d in ('', 'main') if d != srv_cases[i]['dir']]
+        neigh = [dict(x, id=k) for k, x in enumerate(neigh[:150])]
+        found = None
+        if neigh and not ctx.replay:
+            _, rr = run_go(ctx, [], tag='snb', srv_cases=neigh)
+            for x in neigh:
+                why = srv_bad(x, rr[x['id']])
+                if why:
+                    found = (x, why)
+                    break
+        if found:
+            report_srv(found[0], found[1], 'server-edits')
+        else:
+            o = sres[c['id']]
+            vlib.violation(ctx, dict(srv_readable(c, o), kind='correspondence',
+                                     relation='Check.C16Check.flow_agrees (Model/FormatFlow.v = the answer of the real server: kind of answer, '
+                                              'edit list, stored text)' if f1 else
+                                              'Check.C16Check.flow_model_meets_spec (run-time instance of formatting_reproduces_intended)',
+                                     theorem='formatting_reproduces_intended / fix_reproduces_intended / template_worker_reproduces_intended are '
+                                             'proved about Model/FormatFlow.v, which no longer describes internal/lsp/server.go',
+                                     case={'srv_case': {k: v for k, v in c.items() if k != 'id'}},
+                                     n_mismatches=len(f1), n_model_spec_failures=len(f3)), no_input=True)
+
+    proof_gate(ctx, 'compute_edits_sound / compute_edits_total / formatting_reproduces_intended')
 
     # ---- self-test of the tie: perturbed observations must be flagged by both comparison functions
     r1set = set(r1)
@@ -577,6 +1044,7 @@ def run(ctx):
         'positions_relying_on_end_of_document_clamp': clamp_needed,
         'mismatch_model_vs_implementation': len(r1), 'spec_rejects_real_edits': len(r2), 'spec_rejects_model_edits': len(r3),
         'predicate_failures_go_side': len(pred_bad),
+        'server_level': srv_evidence(srv_cases, sres, srv_pred_bad, f1, f2, f3),
         'go_seconds': round(t_go, 1), 'coq_seconds': round(t_coq, 1), 'selftest_perturbed_cases_flagged': selftest_ok,
         'samples': samples,
     })
@@ -586,5 +1054,7 @@ def run(ctx):
         'end of document, only character = 0 positions are given a meaning (the theorem proves every position has character 0)',
         'how a particular editor applies edits is not modelled; the Go-side applier in harness/overlay/c16_test.go is a second, '
         'independent reading of the specification',
-        'the callers in server.go pass cache contents / formatter output unchanged to ComputeEdits (read, not modelled)',
+        'server level: the formatter / fix / template OUTPUT is an oracle (the same library functions run by the test on the client\'s '
+        'text); what is checked is which (before, after) the server hands to ComputeEdits and what it stores (Model/FormatFlow.v)',
+        'the client is a JSON-RPC peer over net.Pipe written for this check; documents are valid UTF-8 (they travel as JSON strings)',
     ])
